@@ -15,9 +15,51 @@ HCFG = dict(nval=4, batch=4, init=dict(pcT=4, certT=6, w=[4, 3, 2, 1], gens=[1, 
             choices=[dict(pcT=4, certT=5, w=[4, 3, 2, 0], gens=[2, 1, 3]), dict(pcT=4, certT=6, w=[1, 2, 3, 4], gens=[4, 1, 2, 3])],
             now=12, network=False)
 
-def run(ctx):
+HCFG8 = dict(nval=8, batch=8, init=dict(pcT=6, certT=6, w=[1] * 8, gens=list(range(1, 9))), choices=[], now=20, network=False)
+
+
+def run_eight(ctx, binp, keys_for_pid):
+    """8 validators: the aggregation bitmap is exactly one byte (validator counts that are multiples of 8 sit on the
+    boundary of every length rule); straight chains to finality, signer / certifier sets from SignerFamily"""
+    cfg = c01.write_cfg(ctx, "cert8", c01.cfg_text("Certificate_8"))
+    r = ctx.tlc("MCCertificate", cfg, workers=1, timeout=1800, simulate=4 if ctx.tier == "quick" else 30, depth=17, seed=ctx.seed + 8)
+    if r["violation"]:
+        raise Inconclusive("Certificate.tla (8 validators) violates one of its own properties: %s" % r["outpath"])
+    sf = ctx.path("cert8_dumps.ndjson")
+    best = {}
+    for d in ctx.dumps(r["out"]):
+        if d["state"]["mhpc"] > d["state"]["cert"]:      # something is certifiable
+            best[json.dumps(d["script"], sort_keys=True)] = d
+    keep = sorted(best.values(), key=lambda d: -len(d["script"]))[:6 if ctx.tier == "quick" else 40]
+    with open(sf, "w") as fh:
+        for d in keep:
+            fh.write(json.dumps(d) + "\n")
+    if not keep:
+        raise Inconclusive("no 8-validator script reached a certifiable height")
+    cf = ctx.path("c06_cfg8.json"); json.dump(HCFG8, open(cf, "w"))
+    of = ctx.path("c06_res8.json")
+    p = ctx.run([binp, sf, cf, of], timeout=3000)
+    if not os.path.exists(of):
+        raise Inconclusive("c06 harness (8 validators) failed (rc=%d): %s" % (p.returncode, p.stderr[-1500:]))
+    res = json.load(open(of))
+    if res.get("harness_errors"):
+        raise Inconclusive("c06 harness error (8 validators): %s" % res["harness_errors"][:2])
+    for v in res.get("violations") or []:
+        if keys_for_pid is None or keys_for_pid(v["key"]):
+            ctx.violation(v["key"], v["what"], v.get("replay"))
+    log("[c06] 8 validators: states=%d verify rows=%d (accepted %d) pool cases=%d non-empty own aggregates=%d violations=%s" % (
+        res["states"], res["verify_rows"], res["verify_rows_accepted"], res["pool_cases"], res["own_aggregates_nonempty"],
+        sorted(set(v["key"] for v in res.get("violations") or []))))
+    if not ctx.violations and res["own_aggregates_nonempty"] == 0:
+        raise Inconclusive("8 validators: no non-empty aggregate was assembled: vacuous")
+    return res
+
+
+def run_cert(ctx, keys_for_pid=None, replay_ok=True):
+    """the certificate machinery; keys_for_pid filters the violation keys that belong to the calling property
+    (C15 uses the pool cases: what GetAggregateCommit assembles must pass the node's own verification)"""
     binp = ctx.go_build("./cmd/c06")
-    if ctx.replay:
+    if ctx.replay and replay_ok:
         d = json.load(open(ctx.replay))["replay"]
         one = dict(script=d["script"], state=d.get("state", {}), verify=[d["row"]] if "row" in d else [],
                    pool=[d["pool"]] if "pool" in d else [], singles=[d["single"]] if "single" in d else [])
@@ -36,7 +78,12 @@ def run(ctx):
                 if k in seen:
                     continue
                 seen.add(k); fh.write(json.dumps(d) + "\n")
-    cf = ctx.path("c06_cfg.json"); json.dump(HCFG, open(cf, "w"))
+    hcfg = HCFG
+    if ctx.replay and replay_ok:
+        gens = [st.get("gen", 0) for st in (d.get("script") or []) if isinstance(st, dict)]
+        if gens and max(gens) > 4:
+            hcfg = HCFG8          # a case found with 8 validators
+    cf = ctx.path("c06_cfg.json"); json.dump(hcfg, open(cf, "w"))
     of = ctx.path("c06_res.json")
     p = ctx.run([binp, sf, cf, of], timeout=3000)
     if not os.path.exists(of):
@@ -45,12 +92,23 @@ def run(ctx):
     if res.get("harness_errors"):
         raise Inconclusive("c06 harness error: %s" % res["harness_errors"][:2])
     for v in res.get("violations") or []:
-        ctx.violation(v["key"], v["what"], v.get("replay"))
+        if keys_for_pid is None or keys_for_pid(v["key"]):
+            ctx.violation(v["key"], v["what"], v.get("replay"))
     log("[c06] states=%d verify rows=%d (accepted %d) bitmap tampers rejected=%d singles fed=%d admitted=%d pool cases=%d non-empty own aggregates=%d violations=%s" % (
         res["states"], res["verify_rows"], res["verify_rows_accepted"], res["bitmap_tampers_rejected"], res["single_commits_fed"],
         res["single_commits_admitted"], res["pool_cases"], res["own_aggregates_nonempty"], sorted(set(v["key"] for v in res.get("violations") or []))))
     if not ctx.violations and (not ctx.replay and (res["verify_rows_accepted"] < 20 or res["own_aggregates_nonempty"] < 10 or res["single_commits_admitted"] < 10)):
         raise Inconclusive("too few acceptable commits / non-empty aggregates exercised: vacuous")
+    if not (ctx.replay and replay_ok):
+        r8 = run_eight(ctx, binp, keys_for_pid)
+        for k in ("states", "verify_rows", "verify_rows_accepted", "bitmap_tampers_rejected", "single_commits_fed", "single_commits_admitted", "pool_cases", "own_aggregates_nonempty"):
+            res[k] = res.get(k, 0) + r8.get(k, 0)
+        res["states_with_8_validators"] = r8["states"]
+    return res, sf
+
+
+def run(ctx):
+    res, sf = run_cert(ctx)
     first = json.loads(open(sf).readline())
     cov = dict(traces_validated_against_impl=res["states"],
                samples=[dict(state=first.get("state"), verify_rows=first.get("verify", [])[:3], pool_cases=first.get("pool", [])[:2], singles=first.get("singles", [])[:2])],
